@@ -497,6 +497,9 @@ func (h *hist) stepExtRemove() string {
 // stepRead lists through one route and compares the names with what the library says.
 func (h *hist) stepRead() string {
 	rt := h.route()
+	if h.e2e && rt == "lib" {
+		rt = "ws"
+	}
 	h.routes[rt] = true
 	g := histGroups[h.r.IntN(len(histGroups))]
 	var got []string
